@@ -464,7 +464,8 @@ verif_main(int argc, char** argv, const Property& p)
       g_mode = "rc";
       long done = 0;
       uint64_t batch = 0;
-      while (done < cases && now_s() - t0 < max_seconds)
+      const double t_rc0 = now_s(); // the time budget applies to the random phase on its own
+      while (done < cases && now_s() - t_rc0 < max_seconds)
         {
           rc::detail::TestParams params;
           params.seed = seed * 1000003ULL + batch;
